@@ -310,6 +310,44 @@ fn outcome_json(cfg: &Cfg, o: &Outcome, ty: &str) -> Value {
     })
 }
 
+/// Control must not depend on sample values: the same history on two different signals must
+/// give identical results, getters and control fields at every step. A difference is reported
+/// as a machinery error (the state merging of E1 would be unsound), not as a verdict.
+fn data_independence_audit(cfg: &Cfg) -> Result<(), String> {
+    use crate::run::{Res, Runner};
+    let mut a = Runner::<f64>::new(cfg, Signal::Noise)?;
+    let mut b = Runner::<f64>::new(cfg, Signal::Zero)?;
+    let mut ops: Vec<Op> = vec![Op::P; 12];
+    if cfg.kind.is_async() && cfg.max_rel > 1.0 {
+        ops.extend([Op::R((1.0 + cfg.max_rel) / 2.0, true), Op::P, Op::P, Op::R(1.0 / cfg.max_rel, false), Op::P, Op::P]);
+    }
+    if cfg.kind.is_sinc() {
+        ops.extend([Op::C((cfg.chunk / 2).max(1)), Op::P, Op::P]);
+    }
+    ops.extend([Op::PP(Some(1)), Op::P, Op::Z, Op::P, Op::P]);
+    for (i, op) in ops.iter().enumerate() {
+        let (oa, ob) = (a.apply(*op), b.apply(*op));
+        if a.dead || b.dead {
+            // a crash is C03's business, found by the exploration itself
+            if a.dead != b.dead {
+                return Err(format!("data-independence audit: {} step {} ({}): one signal crashes, the other does not", cfg.short(), i, op.text()));
+            }
+            return Ok(());
+        }
+        let same_res = match (&oa.res, &ob.res) {
+            (Res::Panic(_), Res::Panic(_)) => true,
+            (x, y) => x == y,
+        };
+        if !same_res || oa.after != ob.after || a.state().scalars != b.state().scalars {
+            return Err(format!(
+                "data-independence audit: {} step {} ({}): control differs between two input signals ({} vs {}); merging states on control fingerprints is unsound",
+                cfg.short(), i, op.text(), oa.res.text(), ob.res.text()
+            ));
+        }
+    }
+    Ok(())
+}
+
 fn twin_class(cfg: &Cfg) -> String {
     match cfg.kind {
         Kind::FI | Kind::FO => format!("fast-{}", cfg.degree.name()),
@@ -386,6 +424,10 @@ impl Check for CtrlCheck {
         let item = all.into_iter().nth(idx).ok_or("no such item")?;
         let mut acc = Value::Null;
         for cfg in &item.cfgs {
+            if self.id == "C03" {
+                // standing audit of the assumption behind merging on control fingerprints
+                data_independence_audit(cfg)?;
+            }
             let spec = spec_for(self.id, tier, cfg);
             let cj = cfg.to_json();
             let jf = |h: &[Op], op: Op| {
